@@ -281,29 +281,3 @@ fn c13_false_twin() {
     vassert!(false, "C13.false_twin");
 }
 
-/// ServerDHParams with fields up to 65 535 bytes: a 70 000-byte input with unconstrained contents.
-#[kani::proof]
-#[kani::unwind(4)]
-fn c13_dh_params_large() {
-    let mut big: alloc::vec::Vec<u8> = alloc::vec::Vec::with_capacity(70_000);
-    unsafe { big.set_len(70_000); }
-    let big = ManuallyDrop::new(big);
-    let n: usize = kani::any();
-    kani::assume(n <= 70_000);
-    let b = &big[..n];
-    let r = tp::parse_dh_params(b);
-    let mut rd = Rd::new(b);
-    let p = rd.lp16();
-    let g = rd.lp16();
-    let ys = rd.lp16();
-    if rd.short {
-        vassert!(r.is_err(), "C13.dh.cut_off.no_value");
-    } else {
-        vassert!(r.is_ok(), "C13.dh.wellformed.accepted");
-        if let Ok((rem, v)) = &r {
-            vassert!(span_is(b, v.dh_p, p) && span_is(b, v.dh_g, g) && span_is(b, v.dh_ys, ys), "C13.dh.fields_exact");
-            vassert!(is_sub(b, rem, rd.pos, n - rd.pos), "C13.dh.consumes_exactly_own_encoding");
-            vcover!(p.1 == 65_535, "C13.dh.cover.prime_of_65535_bytes");
-        }
-    }
-}
